@@ -52,8 +52,10 @@ type labDgram struct {
 
 type labAddr struct{ s string }
 
-func (a labAddr) Network() string { return "udp" }
-func (a labAddr) String() string  { return a.s }
+// (pointer receivers, and a NEW *labAddr for every datagram: that is what net.UDPConn.ReadFrom hands out - two
+// addresses of the same peer are then different interface values, equal only as strings)
+func (a *labAddr) Network() string { return "udp" }
+func (a *labAddr) String() string  { return a.s }
 
 type labConn struct {
 	idx      int
@@ -105,7 +107,7 @@ func (c *labConn) Close() error {
 	}
 	return nil
 }
-func (c *labConn) LocalAddr() net.Addr                { return labAddr{fmt.Sprintf("local%d", c.idx)} }
+func (c *labConn) LocalAddr() net.Addr                { return &labAddr{fmt.Sprintf("local%d", c.idx)} }
 func (c *labConn) SetDeadline(t time.Time) error      { return nil }
 func (c *labConn) SetReadDeadline(t time.Time) error  { return nil }
 func (c *labConn) SetWriteDeadline(t time.Time) error { return nil }
@@ -438,15 +440,19 @@ func runServerScenario(skipVerify bool, secretSpec string, cmds []string, w *os.
 				return "BAD-CASE"
 			}
 			i := atoi(f[0])
-			if i < 0 || i >= nconn || len(readersOn(i)) != 1 || atomic.LoadInt32(&l.conns[i].closeCnt) > 0 {
+			if i < 0 || i >= nconn || len(readersOn(i)) != 1 {
 				// (with several Serve calls reading one conn the receiver of a datagram is not determined)
 				ol.add("D=noop")
 				continue
 			}
+			// (a datagram fed AFTER the conn was closed, to a Serve call that has not seen the closed conn yet, is a
+			// datagram its ReadFrom had already taken when Close was called: the read returns it - RV.Model.Server2's
+			// serveRead before the Close, serveSpawn after it.  It is a received datagram like any other.)
+			reader := readersOn(i)[0]
 			drain(l.conns[i].reading)
 			data := unhx(f[2])
 			select {
-			case l.conns[i].in <- labDgram{data, labAddr{"peer" + f[1]}}:
+			case l.conns[i].in <- labDgram{data, &labAddr{"peer" + f[1]}}:
 			case <-time.After(labWait):
 				ol.add("D=HANG")
 				return strings.Join(ol.toks, " ")
@@ -457,6 +463,11 @@ func runServerScenario(skipVerify bool, secretSpec string, cmds []string, w *os.
 				taskConn[t] = i
 				pendingDgram[t] = data
 				ol.add("D=asked")
+			case r := <-l.serveRet[reader]:
+				// Serve returned instead of handing the datagram to a goroutine
+				serveReturned(reader, r)
+				ol.add("D=serve-returned:" + r)
+				continue
 			case <-time.After(labWait):
 				ol.add("D=HANG")
 				return strings.Join(ol.toks, " ")
@@ -1084,6 +1095,9 @@ func genC07(g *Gen, tier string, emit func(op string, args ...string)) {
 		}
 		return []string{"X" + itoa(j), "x" + itoa(j), "W" + itoa(j), "W" + itoa(j)}
 	}
+	// a datagram the read had already taken when Shutdown closed the conn: handled, and waited for
+	sc([]string{"S0", "s0", "X0", "x0", "D0:0:" + d0, "W0", "d0", "W0", "F0:2", "W0", "e0", "W0"})
+	sc([]string{"S0", "s0", "X0", "x0", "C0", "W0", "D0:0:" + d1, "d0", "F0:2", "e0"})
 	// exhaustive: one Serve, one Shutdown (all 35 interleavings, incl. the registration window)
 	interleavings([][]string{serve(0), down(0, false)}, 0, g, sc)
 	// exhaustive: one Serve, one datagram, one Shutdown
@@ -1152,6 +1166,11 @@ func genC06(g *Gen, tier string, emit func(op string, args ...string)) {
 		sc("S0", "s0", "D0:0:"+d, "d0", "R0:2", "D0:0:"+d, "d1", "F0:0", "D0:0:"+d, "d2", "F2:2")
 		sc("S0", "s0", "D0:0:"+d, "d0", "R0:2", "R0:3", "D0:0:"+d, "d1", "D0:0:"+e, "d2", "R2:5", "D0:0:"+e, "d3", "F2:0", "F0:2", "D0:0:"+e, "d4", "F4:5")
 		sc("S0", "s0", "D0:0:"+d, "d0", "R0:2", "X0", "x0", "D0:0:"+d, "F0:0", "e0", "W0")
+		// a datagram the read had already taken when Shutdown closed the conn is a received datagram: exactly one
+		// handler, the reply goes out, and Shutdown waits for it
+		sc("S0", "s0", "X0", "x0", "D0:0:"+d, "d0", "F0:2", "e0", "W0")
+		sc("S0", "s0", "X0", "x0", "D0:0:"+e, "W0", "d0", "W0", "F0:5", "W0", "e0", "W0")
+		sc("S0", "s0", "D0:0:"+d, "d0", "X0", "x0", "D0:0:"+d, "d1", "D0:0:"+e, "d2", "F0:2", "F2:5", "e0", "W0")
 	}
 	// directed: two or three requests from DIFFERENT peers (and from one peer with different identifiers)
 	// in flight on one Serve call; the handlers reply in every order — each reply must go to its own
@@ -1402,8 +1421,8 @@ type barrierAddr struct {
 	releaseAt *int64 // unix nanoseconds, set by the last arrival: everybody leaves at that instant
 }
 
-func (a barrierAddr) Network() string { return "udp" }
-func (a barrierAddr) String() string {
+func (a *barrierAddr) Network() string { return "udp" }
+func (a *barrierAddr) String() string {
 	if atomic.AddInt32(a.arrived, 1) == a.n {
 		atomic.StoreInt64(a.releaseAt, time.Now().UnixNano()+int64(60*time.Microsecond))
 	}
@@ -1429,16 +1448,17 @@ func (c *dupConn) ReadFrom(p []byte) (int, net.Addr, error) {
 	select {
 	case d := <-c.in:
 		if c.barrier != nil {
-			return copy(p, d), *c.barrier, nil
+			b := *c.barrier // (a new address object per datagram, as net.UDPConn hands out)
+			return copy(p, d), &b, nil
 		}
-		return copy(p, d), labAddr{"peer0"}, nil
+		return copy(p, d), &labAddr{"peer0"}, nil
 	case <-c.closed:
 		return 0, nil, &net.OpError{Op: "read", Net: "udp", Err: net.ErrClosed}
 	}
 }
 func (c *dupConn) WriteTo(p []byte, addr net.Addr) (int, error) { return len(p), nil }
 func (c *dupConn) Close() error                                 { c.once.Do(func() { close(c.closed) }); return nil }
-func (c *dupConn) LocalAddr() net.Addr                          { return labAddr{"local0"} }
+func (c *dupConn) LocalAddr() net.Addr                          { return &labAddr{"local0"} }
 func (c *dupConn) SetDeadline(t time.Time) error                { return nil }
 func (c *dupConn) SetReadDeadline(t time.Time) error            { return nil }
 func (c *dupConn) SetWriteDeadline(t time.Time) error           { return nil }
